@@ -153,7 +153,7 @@ def declared_enzyme(S, name, activity):
     was *declared*, not what the constructor stored."""
     e = S.enzyme(name, activity)
     v, num, den = R.parse_concentration(activity)
-    v = round(v, R.cfg().internal_precision)        # a parsed concentration is kept to 10^-precision in base units (documented)
+    v = R.round_conc(v)        # a parsed concentration is kept to the internal precision (significant digits below 1)
     e._pv_sa = v if (num, den) == ('U', 'g') else 1.0 / v
     return e
 
